@@ -138,7 +138,8 @@ func main() {
 				res.Sample(map[string]any{"case": "c19", "config": c.String(), "stop_context": kind})
 			}
 		}
-	case "c18":
+	case "c18", "c14":
+		// c14: only the faults that make a registration fail - the registry must not keep what never opened
 		K := int64(2)
 		var cfgs []cfg
 		for _, et := range []bool{false, true} {
@@ -165,6 +166,9 @@ func main() {
 		nr := map[string]int{}
 		for ci, c := range cfgs {
 			for fi, f := range faultList(c, K) {
+				if mode == "c14" && f.call != vsys.CEpollAdd {
+					continue
+				}
 				ok := runC18Case(c, res.Seed*1000603+uint64(ci*1000+fi), f, keys)
 				if ok {
 					reached++
@@ -180,7 +184,7 @@ func main() {
 		}
 		for _, call := range []int{vsys.CRecvfrom, vsys.CSendto} {
 			for _, e := range []unix.Errno{unix.ECONNREFUSED, unix.ENOBUFS} {
-				for k := int64(1); k <= K && k <= 3; k++ {
+				for k := int64(1); k <= K && k <= 3 && mode == "c18"; k++ {
 					if runC18UDPCase(res.Seed*1000609+uint64(k), call, e, k, keys) {
 						reached++
 					} else {
